@@ -147,9 +147,11 @@ def check_unit(ctx, case, label, workdir, metamorphic=True, use_model=True):
         if bad:
             ctx.violation(bad[0], bad[1], detail)
             failed = True
-    if c_verdict.startswith('other:') or v_verdict.startswith('other:'):
+    if c_verdict not in ('ok', 'RuntimeError') or \
+            v_verdict not in ('ok', 'RuntimeError'):
         ctx.violation('C08/errors/unclassified',
-                      'unexpected exception: %s / %s' % (v_verdict, c_verdict),
+                      'unexpected exception type: %s / %s'
+                      % (v_verdict, c_verdict),
                       detail, found_input=False)
         failed = True
     # validate and create agree on validation failures
@@ -189,7 +191,7 @@ def check_unit(ctx, case, label, workdir, metamorphic=True, use_model=True):
                'm': case['m']}
         mv = ctx.model('markers.validate', inp)
         if 'err' in mv:
-            same = (mv['err'] == v_verdict)
+            same = (mu.model_err_class(mv['err']) == v_verdict)
         else:
             same = (v_verdict == 'ok' and
                     can.unlookup(mv['ok']) == {k: list(v)
@@ -211,7 +213,7 @@ def check_unit(ctx, case, label, workdir, metamorphic=True, use_model=True):
                 failed = True
         mc = ctx.model('markers.createCache', inp)
         if 'err' in mc:
-            same = (mc['err'] == c_verdict)
+            same = (mu.model_err_class(mc['err']) == c_verdict)
             why = 'verdict'
         else:
             why = None
@@ -232,7 +234,7 @@ def check_unit(ctx, case, label, workdir, metamorphic=True, use_model=True):
                 else:
                     ms = mc['serialize']
                     if 'err' in ms:
-                        if ser[0] != ms['err']:
+                        if ser[0] != mu.model_err_class(ms['err']):
                             same, why = False, 'serialize-verdict'
                     elif ser[0] != 'ok' or can.unlookup(ms['ok']) != ser[1] \
                             or [mu.key_str(can.unkey(k)) for k, _ in ms['ok']] \
@@ -277,7 +279,7 @@ def check_unit(ctx, case, label, workdir, metamorphic=True, use_model=True):
                 dict(detail, with_tree=False))
             failed = True
         if 'err' in m3:
-            same = (m3['err'] == v3)
+            same = (mu.model_err_class(m3['err']) == v3)
         else:
             same = v3 == 'ok' and {
                 mu.key_str(can.unkey(k)): ([r for r, _ in rows],
@@ -604,7 +606,7 @@ def check_pairing_pipeline(ctx, case, label):
     (ok_a, err_a, ra), (ok_b, err_b, rb) = outs
     if not ok_a:
         ctx.violation('C08/errors/rejected-valid/'
-                      + mu.classify_error(RuntimeError(err_a)).split(':')[0],
+                      + 'RuntimeError',
                       'run with a valid table fails: %s' % err_a, detail)
         return
     if not ok_b:
@@ -822,8 +824,7 @@ def check_pipeline(ctx, case, label):
                           'run maps although: %s' % exp['must_fail'], detail)
             failed = True
     elif not res['ok']:
-        if root_left_out and verdict in ('differentTaxonomies', 'keyError',
-                                         'missingGroup'):
+        if root_left_out:
             ctx.violation(SIG_ROOT, 'run fails (%s) because the root, which '
                           'has a single child, has no entry in the marker '
                           'table' % verdict, detail)
@@ -893,7 +894,7 @@ def check_pipeline(ctx, case, label):
                else can.tc.level_id[case['drop_level']]}
         ms = ctx.model('markers.stage', inp)
         if 'err' in ms:
-            same = (ms['err'] == verdict)
+            same = (mu.model_err_class(ms['err']) == verdict)
         else:
             same = res['ok'] and \
                 can.unlookup(ms['ok']['reported']) == res['json']['marker_genes']
